@@ -24,9 +24,11 @@ Definition agree (r : res out) (x : expect) : nat :=     (* 0 ok, 1 names, 2 val
   end%nat.
 Definition q (n : Z) (d : positive) : cell := Some (Q2Qc (Qmake n d)).
 Definition qq (n : Z) (d : positive) : Qc := Q2Qc (Qmake n d).
-Definition case := (frame * nat * cfg * list term * expect)%type.
-Fixpoint chk (cs : list case) (i : nat) : nat * list (nat * nat) :=
+Record mcase := { m_frame : frame; m_nrows : nat; m_cfg : cfg; m_terms : list term; m_expect : expect }.
+Fixpoint chk_build (cs : list mcase) (i : nat) : nat * list nat :=
   match cs with [] => (O, [])
-  | (d, n, c, ts, x) :: r => let '(m, fl) := chk r (S i) in
-      match agree (build d n c ts) x with O => (m, fl) | k => (S m, (i, k) :: fl) end
+  | c :: r => let '(m, fl) := chk_build r (S i) in
+      match agree (build (m_frame c) (m_nrows c) (m_cfg c) (m_terms c)) (m_expect c) with O => (m, fl) | _ => (S m, i :: fl) end
   end.
+(* which aspect disagrees: 1 names, 2 values, 3 drop set, 4 structure, 5 error class *)
+Definition why (c : mcase) : nat := agree (build (m_frame c) (m_nrows c) (m_cfg c) (m_terms c)) (m_expect c).
